@@ -233,3 +233,19 @@ Example ex_once :
   make_pair_table cP [cD] [cO; cC; cO; cD; cP; cO; cD; cP; cC; cC]
   = Ok [[Some (0, 1); Some (0, 0); Some (2, 1); None]; [Some (2, 0); None]; [Some (1, 0); Some (0, 2)]].
 Proof. cbn zeta. repeat split. Qed.
+
+(* the hypotheses of rot_once_strands_lemma on the same complex: first strand a b *)
+Example ex_strands :
+  let s0 := [[97%N]; [98%N]] in
+  let rest := [[99%N]; [100%N]; [101%N]; [102%N]; sPlus; [103%N]; [104%N]] in
+  let sst := [cO; cO; cP; cO; cC; cC; cD; cP; cC; cD] in
+  Forall (fun x => x <> sPlus) s0 /\ s0 <> [] /\
+  (exists seq' sst', rotate_complex_once (s0 ++ sPlus :: rest) sst = Ok (seq', sst') /\
+     make_strand_table_list sPlus (s0 ++ sPlus :: rest)
+       = [[[97%N]; [98%N]]; [[99%N]; [100%N]; [101%N]; [102%N]]; [[103%N]; [104%N]]] /\
+     make_strand_table_list sPlus seq'
+       = [[[99%N]; [100%N]; [101%N]; [102%N]]; [[103%N]; [104%N]]; [[97%N]; [98%N]]]).
+Proof.
+  cbn zeta. split; [repeat constructor; discriminate|]. split; [discriminate|].
+  eexists _, _. split; [reflexivity|]. split; reflexivity.
+Qed.
